@@ -131,6 +131,11 @@ def parseCps (s : String) : Option (List Nat) :=
 
 def stepLine (line : String) : String :=
   match fields line with
+  | ["replay", auth, run, https, target] =>
+    if (auth ≠ "0" ∧ auth ≠ "1") ∨ (https ≠ "0" ∧ https ≠ "1") ∨ (target ≠ "0" ∧ target ≠ "1") then "bad-op" else
+    match parseMode run with
+    | some m => "[" ++ "+".intercalate ((replayWrites (auth = "1") m (https = "1") (target = "1")).map showWrite) ++ "]"
+    | none => "bad-op"
   | ["upval", t] =>
     match parseCps t with
     | some t => match MitmVerif.C24.Cred.upstreamAuthValue t with
